@@ -28,13 +28,9 @@ func c19Cfg(strict bool) worldCfg {
 func c19Scenarios(thorough bool) []*schedScenario {
 	auto := func(host, h string) vOp { return vOp{Kind: "auto", Host: host, Handle: h} }
 	scs := []*schedScenario{
-		// two clients on the same host race for the same block and its free list
-		{Name: "same-host-assign", Cfg: c19Cfg(false), Threads: [][]vOp{{auto("n1", "h1")}, {auto("n1", "h2")}}},
 		// an existing block with one free address left: both want it
 		{Name: "last-address", Cfg: c19Cfg(true), Setup: []vOp{{Kind: "auto", Host: "n1", Handle: "h0", Num: 3}},
 			Threads: [][]vOp{{auto("n1", "h1")}, {auto("n1", "h2")}}},
-		// two hosts claim blocks and assign concurrently (claim race, borrowing from the other's block)
-		{Name: "two-hosts-assign", Cfg: c19Cfg(false), Threads: [][]vOp{{auto("n1", "h1")}, {auto("n2", "h2")}}},
 		// release (naming handle + sequence number) racing an assign that may reuse the address
 		{Name: "release-vs-assign", Cfg: c19Cfg(false), Setup: []vOp{{Kind: "auto", Host: "n1", Handle: "h0", Num: 4}},
 			Threads: [][]vOp{{{Kind: "release", IP: "@h0.0", Handle: "h0", WithHandle: true, WithSeq: true}}, {auto("n1", "h2")}}},
@@ -47,6 +43,10 @@ func c19Scenarios(thorough bool) []*schedScenario {
 		// specific-address assign of an address that is taken (and stays taken) racing an auto-assign
 		{Name: "assignip-taken-vs-assign", Cfg: c19Cfg(false), Setup: []vOp{auto("n1", "h0")},
 			Threads: [][]vOp{{{Kind: "assignip", Host: "n1", Handle: "h2", IP: "@h0.0"}}, {auto("n1", "h3")}}},
+		// two clients on the same host race for the same block and its free list
+		{Name: "same-host-assign", Cfg: c19Cfg(false), Threads: [][]vOp{{auto("n1", "h1")}, {auto("n1", "h2")}}},
+		// two hosts claim blocks and assign concurrently (claim race, borrowing from the other's block)
+		{Name: "two-hosts-assign", Cfg: c19Cfg(false), Threads: [][]vOp{{auto("n1", "h1")}, {auto("n2", "h2")}}},
 		// assign then release by the same client, racing a second client
 		{Name: "assign-release-vs-assign", Cfg: c19Cfg(false),
 			Threads: [][]vOp{{auto("n1", "h1"), {Kind: "rbh", Handle: "h1"}}, {auto("n1", "h2")}}},
